@@ -2156,17 +2156,58 @@ def preprocess_file(
         else:
             return line_res
 
-    def expand_func_macro(def_name: str, def_value: tuple[str, str]):
-        def_args, sub = def_value
-        def_args = def_args.split(",")
-        regex = re.compile(rf"\b{def_name}\s*\({','.join(['(.*)']*len(def_args))}\)")
-        # The body is used as a re.sub template: keep its own backslashes literal
-        sub = sub.replace("\\", "\\\\")
-
-        for i, arg in enumerate(def_args, start=1):
-            sub = re.sub(rf"\b({arg.strip()})\b", rf"\\{i}", sub)
-
-        return regex, sub
+    def expand_func_macro(def_name: str, def_value: tuple[str, str], line: str):
+        """Replace every ``NAME(arg, ...)`` in line by the macro body with the
+        arguments substituted for the parameters. The argument list ends at the
+        parenthesis that matches the opening one, so arguments may contain
+        parentheses and several uses may share a line."""
+        def_args, body = def_value
+        params = [arg.strip() for arg in def_args.split(",")]
+        name_regex = re.compile(rf"\b{def_name}\s*\(")
+        param_regex = re.compile(
+            r"\b(" + "|".join(re.escape(p) for p in params if p) + r")\b"
+        )
+        out_line = ""
+        pos = 0
+        nsubs = 0
+        for match in name_regex.finditer(line):
+            if match.start(0) < pos:
+                continue  # inside the arguments of a previous use
+            # Split the argument list at top-level commas
+            args = []
+            level = 0
+            quote = None
+            i0 = match.end(0)
+            end = -1
+            for i in range(match.end(0), len(line)):
+                char = line[i]
+                if quote is not None:
+                    if char == quote:
+                        quote = None
+                elif char in ("'", '"'):
+                    quote = char
+                elif char in "([":
+                    level += 1
+                elif char in ")]":
+                    if level == 0:
+                        args.append(line[i0:i])
+                        end = i + 1
+                        break
+                    level -= 1
+                elif char == "," and level == 0:
+                    args.append(line[i0:i])
+                    i0 = i + 1
+            if end < 0 or len(args) != len(params):
+                continue
+            arg_map = dict(zip(params, args))
+            if any(params):
+                new_body = param_regex.sub(lambda m: arg_map[m.group(1)], body)
+            else:
+                new_body = body
+            out_line += line[pos : match.start(0)] + new_body
+            pos = end
+            nsubs += 1
+        return out_line + line[pos:], nsubs
 
     def append_multiline_macro(def_value: str | tuple, line: str):
         if isinstance(def_value, tuple):
@@ -2370,21 +2411,15 @@ def preprocess_file(
             # spare the expensive regex-substitution in case we do not need it at all
             if def_tmp not in line:
                 continue
-            def_regex = def_regexes.get(def_tmp)
-            if def_regex is None:
-                if isinstance(value, tuple):
-                    def_regex = expand_func_macro(def_tmp, value)
-                else:
-                    def_regex = re.compile(rf"\b{def_tmp}\b")
-                def_regexes[def_tmp] = def_regex
-
-            if isinstance(def_regex, tuple):
-                def_regex, value = def_regex
+            if isinstance(value, tuple):
+                line_new, nsubs = expand_func_macro(def_tmp, value, line)
             else:
+                def_regex = def_regexes.get(def_tmp)
+                if def_regex is None:
+                    def_regex = re.compile(rf"\b{def_tmp}\b")
+                    def_regexes[def_tmp] = def_regex
                 # Object-like macro bodies are literal text, not re.sub templates
-                value = value.replace("\\", "\\\\")
-
-            line_new, nsubs = def_regex.subn(value, line)
+                line_new, nsubs = def_regex.subn(value.replace("\\", "\\\\"), line)
             if nsubs > 0:
                 log.debug(
                     "%s !!! Macro sub(%d) '%s' -> '%s'",
